@@ -181,6 +181,7 @@ fn tracker_visit_expr<'a>(expr: &ast::Expr<'a>, state: &mut AssignmentTracker<'a
             tracker_visit_expr(&expr.subscript_expr, state);
         }
         ast::Expr::Slice(slice) => {
+            tracker_visit_expr(&slice.expr, state);
             tracker_visit_expr_opt(&slice.start, state);
             tracker_visit_expr_opt(&slice.stop, state);
             tracker_visit_expr_opt(&slice.step, state);
@@ -252,6 +253,7 @@ fn track_walk<'a>(node: &ast::Stmt<'a>, state: &mut AssignmentTracker<'a>) {
             tracker_visit_expr(&stmt.expr, state);
         }
         ast::Stmt::AutoEscape(stmt) => {
+            tracker_visit_expr(&stmt.enabled, state);
             state.push();
             stmt.body.iter().for_each(|x| track_walk(x, state));
             state.pop();
@@ -260,6 +262,7 @@ fn track_walk<'a>(node: &ast::Stmt<'a>, state: &mut AssignmentTracker<'a>) {
             state.push();
             stmt.body.iter().for_each(|x| track_walk(x, state));
             state.pop();
+            tracker_visit_expr(&stmt.filter, state);
         }
         ast::Stmt::SetBlock(stmt) => {
             track_assign(&stmt.target, state);
